@@ -10,7 +10,12 @@ Case shapes (JSON; names are str, WSGI strings are str with all characters < 256
   {"mode":"route", "tree":T,"path":wsgi,"vroot":wsgi|null}               PATH_INFO hitting one of the routes
   {"mode":"direct","tree":T,"path":wsgi|null,"vroot":wsgi|null,"md":null|{"traverse":X,"subpath":X}}
   {"mode":"api",   "tree":T,"start":[name…],"path":str|[name…]}          pyramid.traversal.traverse()
+  {"mode":"find",  "tree":T,"start":[name…],"path":str|[name…]}          pyramid.traversal.find_resource()
   {"mode":"tpath","path":str} {"mode":"tpi","path":wsgi} {"mode":"split","path":str} {"mode":"join","tuple":[…]}
+  {"mode":"hist","tree":T,"ops":[case…]}   a HISTORY: the ops (ordinary cases; "tree" taken from the history when an
+                                           op has none) run one after the other in a fresh process state (every memo
+                                           of pyramid.traversal emptied first); each call's outcome must equal the
+                                           outcome of the same call made alone in a fresh state
   T = {"g":bool,"k":[[name,T],…]}   X = str | [str…]   (key absent = not in the match dictionary)
 """
 import io, itertools, json, re, sys
@@ -23,7 +28,7 @@ from pyramid.interfaces import VH_ROOT_KEY
 
 RULE = ('a traversal case (router/route/direct/api) is non-trivial when the walk stops strictly inside the path '
         '(a view name is produced) or a virtual-root header is present or the path contains a "", ".", ".." '
-        'segment; a helper case (tpath/tpi/split/join) when its input holds a "..", a percent escape or a non-ASCII '
+        'segment; a helper case (tpath/tpi/split/join/find) when its input holds a "..", a percent escape or a non-ASCII '
         'character; distinct = distinct canonical case JSON')
 
 FIELDS = ('context', 'view_name', 'subpath', 'traversed', 'virtual_root', 'virtual_root_path')
@@ -198,6 +203,20 @@ def impl(case):
                     return {'err': 'result outside the start resource'}, extra
                 r[f] = r[f][len(base):]
             return {'ok': {'base': base, 'res': r}}, extra
+        if mode == 'find':
+            index = {}
+            root = build(case['tree'], index=index)
+            start = root
+            for n in case['start']:
+                if not isinstance(start, Node) or n not in start:
+                    return {'err': 'badcase'}, extra
+                start = start[n]
+            path = case['path']
+            if isinstance(path, list):
+                path = tuple(path)
+            ob = T.find_resource(start, path)
+            pos = index.get(id(ob))
+            return ({'ok': pos} if pos is not None else {'err': 'result is not a resource of the tree'}), extra
         if mode == 'tpath':
             return {'ok': list(T.traversal_path(case['path']))}, extra
         if mode == 'tpi':
@@ -240,7 +259,7 @@ def model_case(case, extra):
         if md is not None:
             j['md'] = {'traverse': jsot(md.get('traverse')), 'subpath': jsot(md.get('subpath'))}
         return j
-    if mode == 'api':
+    if mode in ('api', 'find'):
         return {'op': 'api', 'tree': jtree(case['tree']), 'start': [codes(n) for n in case['start']], 'path': jsot(case['path'])}
     if mode == 'tpath':
         return {'op': 'tpath', 'path': codes(case['path'])}
@@ -255,6 +274,16 @@ def model_case(case, extra):
 
 def txt(cs):
     return ''.join(map(chr, cs))
+
+
+def find_of_api(r):
+    """find_resource in terms of traverse(): the context when the path is exhausted, KeyError otherwise"""
+    if r is None or 'ok' not in r:
+        return r
+    res = r['ok']['res']
+    if res['view_name']:
+        return {'err': 'keyerror'}
+    return {'ok': r['ok']['base'] + res['context']}
 
 
 def decode_result(r):
@@ -277,6 +306,8 @@ def decode_model(case, mo):
         out = {'ok': decode_result(mo['ok'])}
     elif mode == 'api':
         out = {'ok': {'base': [txt(x) for x in mo['ok']['base']], 'res': decode_result(mo['ok']['res'])}}
+    elif mode == 'find':
+        out = find_of_api({'ok': {'base': [txt(x) for x in mo['ok']['base']], 'res': decode_result(mo['ok']['res'])}})
     elif mode == 'join':
         out = {'ok': txt(mo['ok'])}
     else:
@@ -386,6 +417,9 @@ def expected(case, extra):
         out, k = spec_walk(case['tree'], vt, pt, sub0)
         info.update(vt=vt, pt=pt, k=k, why=spec_walk.why)
         return {'ok': out}, info
+    if mode == 'find':
+        exp, info = expected(dict(case, mode='api'), extra)
+        return find_of_api(exp), info
     if mode == 'api':
         path = case['path']
         start = list(case['start'])
@@ -604,6 +638,8 @@ def gen_traversal(rng, deep):
 
 
 def gen_case(rng, deep=False):
+    if rng.random() < 0.06:
+        return gen_twin_single(rng)          # the confusable-twins family (defined with the history checks below)
     r = rng.random()
     if r < 0.62:
         tree, vroot, vkind, segs = gen_traversal(rng, deep)
@@ -696,7 +732,7 @@ def gen_case(rng, deep=False):
                 path += '/'
             elif q < 0.13:
                 path += rng.choice(['%', '%4', '%zz', '?x=1', 'é'])
-        return {'mode': 'api', 'tree': tree, 'start': start, 'path': path}
+        return {'mode': 'find' if rng.random() < 0.2 else 'api', 'tree': tree, 'start': start, 'path': path}
     segs = [gen_name(rng) for _ in range(rng.randint(0, 5))]
     if rng.random() < 0.5:
         segs = noise(rng, segs, 0.5)
@@ -740,6 +776,12 @@ def quote_some(rng, seg):
 
 def check_case(case, model_reply=None, want_model=False):
     """returns (got, extra, mismatch|None, violation|None, info)"""
+    if case.get('mode') == 'hist':
+        replies = None if model_reply is None else model_reply
+        r = eval_hist(case, replies)
+        unknown = [v for v in r['violations'] if not v.get('finding')]
+        v = (unknown or r['violations'] or [None])[0]
+        return {'ok': r['seq']}, {}, (r['mismatches'] or [None])[0], v, {'hist': r}
     got, extra = impl(case)
     exp, info = expected(case, extra)
     viol = mism = None
@@ -795,10 +837,302 @@ def nontrivial(case, got, info, feats):
 
 
 def clear_caches():
-    for fn in (T.traversal_path_info, T.split_path_info, T._join_path_tuple):
-        if hasattr(fn, 'cache_clear'):
-            fn.cache_clear()
-    T._segment_cache.clear()
+    """fresh-process state of pyramid.traversal: EVERY memo of the module is emptied — each function carrying a
+    cache_clear() (functools.lru_cache or a home-made wrapper) and each module-level container whose name says
+    cache / memo (`_segment_cache`, …) — whatever the tree under test calls them"""
+    for name, ob in list(vars(T).items()):
+        if name.startswith('__'):
+            continue
+        cc = getattr(ob, 'cache_clear', None)
+        if callable(ob) and callable(cc):
+            try:
+                cc()
+            except Exception:      # noqa
+                pass
+        elif isinstance(ob, (dict, set, list)) and re.search(r'cache|memo', name, re.I):
+            ob.clear()
+
+
+# ------------------------------------------------------------------------------------------------
+# histories: "the outcome never depends on paths resolved earlier in the process"
+
+TREE_MODES = ('router', 'route', 'direct', 'api', 'find')
+
+
+def fresh_state():
+    """the nearest thing to a new process: every pyramid module is dropped and imported again (so memos hidden in
+    closures / default arguments / class attributes go too), and the harness' own application is rebuilt.  Slow
+    (~0.1 s): used to confirm what is reported and in replays; the streams use clear_caches()."""
+    global T, VH_ROOT_KEY
+    for m in [k for k in sys.modules if k == 'pyramid' or k.startswith('pyramid.')]:
+        del sys.modules[m]
+    import importlib
+    T = importlib.import_module('pyramid.traversal')
+    VH_ROOT_KEY = importlib.import_module('pyramid.interfaces').VH_ROOT_KEY
+    _APP.clear()
+
+
+def hist_ops(H):
+    t = H.get('tree')
+    return [dict(op, tree=t) if ('tree' not in op and op.get('mode') in TREE_MODES and t is not None) else op for op in H['ops']]
+
+
+def cold_call(op, reset=None):
+    """the reference: the call made alone in a fresh state"""
+    (reset or clear_caches)()
+    return impl(op)
+
+
+def op_brief(op):
+    d = {k: v for k, v in op.items() if k != 'tree'}
+    return d
+
+
+def last_differs(ops, reset=None):
+    """does the LAST call of the history give another outcome than the same call made cold?"""
+    (reset or clear_caches)()
+    got = None
+    for op in ops:
+        got, _ = impl(op)
+    cold, _ = cold_call(ops[-1], reset)
+    return got != cold
+
+
+def eval_hist(H, replies=None, oracle=True, reset=None):
+    """run a history from a fresh state; every call must give what the same call gives cold.  With `oracle` the cold
+    outcomes are also held against the property oracle (and the model replies, when given)."""
+    ops = hist_ops(H)
+    (reset or clear_caches)()
+    seq = [impl(op)[0] for op in ops]
+    cold, extras = [], []
+    for op in ops:
+        g, e = cold_call(op, reset)
+        cold.append(g); extras.append(e)
+    viol, mism = [], []
+    for i, (x, y) in enumerate(zip(seq, cold)):
+        if x != y:
+            viol.append({'case': H, 'history': True,
+                         'impl': {'at_call': i, 'call': op_brief(ops[i]), 'in_this_history': x, 'in_a_fresh_process': y},
+                         'expected': {'the outcome of the same call in a fresh process': y},
+                         'detail': 'call #%d of this history (%d calls, started with every memo of pyramid.traversal empty) gives a '
+                                   'different outcome than the same call made alone: the outcome depends on the paths resolved '
+                                   'earlier in the process' % (i, len(ops))})
+            break
+    if oracle:
+        for i, op in enumerate(ops):
+            exp, info = expected(op, extras[i])
+            if exp is not None and cold[i] != exp:
+                v = {'case': op, 'impl': cold[i], 'expected': exp,
+                     'detail': 'the implementation does not give the outcome the property demands (call #%d of a history, made cold)' % i}
+                f = classify(op, extras[i], cold[i], exp, info)
+                if f:
+                    v['finding'] = f
+                viol.append(v)
+            if replies is not None and replies[i] is not None:
+                mo, mspec = decode_model(op, replies[i])
+                if mo != cold[i] and mo != {'err': 'outside'}:
+                    mism.append({'case': op, 'impl': cold[i], 'model': mo})
+                if mspec is not None and exp is not None and mspec != exp:
+                    mism.append({'case': op, 'impl': {'python_oracle': exp}, 'model': {'lean_spec': mspec}})
+    return {'seq': seq, 'cold': cold, 'extras': extras, 'violations': viol, 'mismatches': mism}
+
+
+def minimise_history(ops, budget=400, reset=None):
+    """delta debugging on the calls before the last one (the last call is the one that misbehaves)"""
+    pre, last = list(ops[:-1]), ops[-1]
+    n, tests = 2, 0
+    while pre and tests < budget:
+        chunk = max(1, (len(pre) + n - 1) // n)
+        removed = False
+        for i in range(0, len(pre), chunk):
+            cand = pre[:i] + pre[i + chunk:]
+            tests += 1
+            if last_differs(cand + [last], reset):
+                pre, n, removed = cand, max(n - 1, 2), True
+                break
+        if not removed:
+            if chunk == 1:
+                break
+            n = min(n * 2, len(pre))
+    return pre + [last]
+
+
+class Recorder:
+    """what ran since the memos were last emptied — so that a call that misbehaves in the middle of the stream can be
+    turned into a self-contained history that reproduces from a fresh state"""
+    CAP = 1500
+
+    def __init__(self):
+        self.ops, self.captured, self.dependent, self.tried = [], [], 0, 0
+
+    def cleared(self):
+        self.ops = []
+
+    def ran(self, case):
+        self.ops.append(case)
+        if len(self.ops) > 2 * self.CAP:
+            self.ops = self.ops[-self.CAP:]
+
+    def suspicious(self, case, got):
+        """`case` (just run, outcome `got`) looks wrong.  Returns None when a cold call gives the same (then it is not
+        a matter of history), else a violation: a minimised reproducing history if one can be cut out of the recent
+        calls, the bare case otherwise.  Empties the memos."""
+        ops = self.ops[-self.CAP:]
+        if not ops or ops[-1] is not case:
+            ops = ops + [case]
+        cold, _ = cold_call(case)
+        self.cleared()
+        if cold == got:
+            return None
+        self.dependent += 1
+        if self.tried < 3:
+            self.tried += 1
+            if last_differs(ops):
+                ops = minimise_history(ops)
+                H = {'mode': 'hist', 'ops': ops}
+                r = eval_hist(H, oracle=False)
+                if r['violations']:
+                    self.captured.append(r['violations'][0])
+                    return r['violations'][0]
+        if self.captured:
+            return False            # counted; a reproducing history of the same kind is already reported
+        return {'case': case, 'impl': {'in_the_stream': got, 'in_a_fresh_process': cold}, 'expected': 'same outcome', 'history': 'uncaptured',
+                'detail': 'outcome depends on the paths resolved earlier (memoised helpers); no reproducing history could be cut '
+                          'out of the last %d calls' % len(ops)}
+
+
+# --- the "confusable twins": a str that means one path as a WSGI string (UTF-8 bytes read as latin-1) and ANOTHER path
+# as decoded text.  traversal_path_info / PATH_INFO take the former, split_path_info / match-dictionary strings the latter.
+
+TWIN_NAMES = ['é', 'café', 'ß', 'ñ', 'La Peña', '日本', '€', 'я', '😀', 'Ã©', 'ü.txt']
+TWIN_TAILS = ['', '', '/a', '/a/', '/@@v', '/zz/x', '/leaf/y', '/a/../a']
+
+
+def wsgi_of(text):
+    return text.encode('utf-8').decode('latin-1')
+
+
+def is_latin1(text):
+    return all(ord(c) < 256 for c in text)
+
+
+def pct_path(text):
+    from urllib.parse import quote
+    return '/'.join(quote(seg, safe="@!$&'()*+,;=:") for seg in text.split('/'))
+
+
+def twin_tree(name):
+    """the root holds the name AND the texts its WSGI spellings look like (three levels), each a container with the
+    same small subtree — so that taking one for the other changes the context"""
+    kids, n = [], name
+    for _ in range(4):
+        kids.append([n, {'g': True, 'k': [['a', {'g': True, 'k': []}], ['leaf', {'g': False, 'k': []}]]}])
+        n = wsgi_of(n)
+    return {'g': True, 'k': kids + [['a', {'g': True, 'k': []}]]}
+
+
+TWIN_KINDS = ('tpi', 'split', 'tpath', 'direct', 'md', 'mdtuple', 'vroot', 'router', 'route_s', 'route_t', 'api', 'find')
+TEXT_KINDS = ('split', 'md', 'mdtuple')                     # take decoded text
+WSGI_KINDS = ('tpi', 'direct', 'router', 'vroot')          # take a WSGI string
+
+
+def twin_op(kind, s):
+    """one call of `kind` that hands the string `s` to a memoised helper (as text or as WSGI string, see above)"""
+    if kind == 'tpi':
+        return {'mode': 'tpi', 'path': s}
+    if kind == 'split':
+        return {'mode': 'split', 'path': s}
+    if kind == 'tpath':
+        return {'mode': 'tpath', 'path': pct_path(s)}          # unquotes to wsgi_of(s), decodes to s
+    if kind == 'direct':
+        return {'mode': 'direct', 'path': s, 'vroot': None, 'md': None}
+    if kind == 'md':
+        return {'mode': 'direct', 'path': '/', 'vroot': None, 'md': {'traverse': s}}
+    if kind == 'mdtuple':
+        return {'mode': 'direct', 'path': '/', 'vroot': None, 'md': {'traverse': [x for x in s.split('/') if x]}}
+    if kind == 'vroot':
+        return {'mode': 'direct', 'path': '/a', 'vroot': s, 'md': None}
+    if kind == 'router':
+        return {'mode': 'router', 'path': s, 'vroot': None}
+    if kind == 'route_s':
+        return {'mode': 'route', 'path': wsgi_of('/_s' + s), 'vroot': None}      # {traverse:.*}: the text s as a string
+    if kind == 'route_t':
+        return {'mode': 'route', 'path': wsgi_of('/_t' + s), 'vroot': None}      # *traverse: urldispatch splits the text s
+    if kind == 'api':
+        return {'mode': 'api', 'start': [], 'path': pct_path(s)}
+    if kind == 'find':
+        return {'mode': 'find', 'start': [], 'path': pct_path(s)}
+    raise ValueError(kind)
+
+
+def twin_levels(rng):
+    name = rng.choice(TWIN_NAMES)
+    L = ['/' + name + rng.choice(TWIN_TAILS)]
+    for _ in range(3):
+        L.append(wsgi_of(L[-1]))
+    return name, L
+
+
+def twin_random_op(rng, L):
+    kind = rng.choice(TWIN_KINDS)
+    if kind in WSGI_KINDS:
+        s = rng.choice([x for x in L if is_latin1(x)])
+    else:
+        s = rng.choice(L[:3])
+    return twin_op(kind, s)
+
+
+def gen_twin_single(rng):
+    """one ordinary case of the twins family for the main stream (its collisions come from the stream's own order)"""
+    name, L = twin_levels(rng)
+    op = twin_random_op(rng, L)
+    if op['mode'] in TREE_MODES:
+        op['tree'] = twin_tree(name)
+    return op
+
+
+def gen_hist(rng):
+    """a history over one twins chain: some helper sees the string S as a WSGI string right before / after another sees
+    the SAME string as text (both orders), then more calls over the chain"""
+    name, L = twin_levels(rng)
+    S = rng.choice(L[1:3])                                   # latin-1 by construction; as text it is a level further up
+    pair = [twin_op(rng.choice(WSGI_KINDS), S), twin_op(rng.choice(TEXT_KINDS + ('tpath', 'route_s', 'route_t', 'api', 'find')), S)]
+    if rng.random() < 0.5:
+        pair.reverse()
+    ops = [twin_random_op(rng, L) for _ in range(rng.randint(0, 2))] + pair + [twin_random_op(rng, L) for _ in range(rng.randint(0, 3))]
+    if rng.random() < 0.3:
+        ops.insert(rng.randint(0, len(ops)), {'mode': 'tpi', 'path': '/a/b'})
+    return {'mode': 'hist', 'tree': twin_tree(name), 'ops': ops}
+
+
+def small_scope_histories(maxlen, limit=3):
+    """every sequence of at most `maxlen` calls of {traversal_path_info(s), split_path_info(s), traverser(PATH_INFO=s)}
+    over six strings (an ASCII path, '/é', its WSGI spelling, the WSGI spelling of that, and two two-segment twins), each
+    run from a fresh state; every call must give its cold outcome.  Returns (violations, sequences run, atoms)."""
+    w1 = wsgi_of('/é'); w2 = wsgi_of(w1)
+    pool = ['/a', '/é', w1, w2, w1 + '/a', '/é/a']
+    tree = {'g': True, 'k': [['a', {'g': True, 'k': []}]] + [[n, {'g': True, 'k': [['a', {'g': True, 'k': []}]]}] for n in ('é', w1[1:], w2[1:])]}
+    atoms = []
+    for s in pool:
+        atoms.append({'mode': 'tpi', 'path': s})
+        atoms.append({'mode': 'split', 'path': s})
+        atoms.append({'mode': 'direct', 'path': s, 'vroot': None, 'md': None, 'tree': tree})
+    cold = [cold_call(a)[0] for a in atoms]
+    viol, n = [], 0
+    idx = range(len(atoms))
+    for L in range(1, maxlen + 1):
+        for seq in itertools.product(idx, repeat=L):
+            n += 1
+            clear_caches()
+            for j, i in enumerate(seq):
+                if impl(atoms[i])[0] != cold[i]:
+                    H = {'mode': 'hist', 'tree': tree, 'ops': [op_brief(atoms[k]) for k in seq[:j + 1]]}
+                    r = eval_hist(H, oracle=False)
+                    viol += r['violations'][:1]
+                    break
+            if len(viol) >= limit:
+                return viol, n, atoms
+    return viol, n, atoms
 
 
 WITNESSES = [
@@ -822,20 +1156,44 @@ WITNESSES = [
 def run(ctx):
     rng = ctx.rng
     n = ctx.n(15000, 250000)
-    corpus = [c for _, c in ctx.corpus()]
+    corpus_all = [c for _, c in ctx.corpus()]
+    corpus = [c for c in corpus_all if c.get('mode') != 'hist']
+    hist_cases = [c for c in corpus_all if c.get('mode') == 'hist']
     cases = corpus + [gen_case(rng, deep=(ctx.tier == 'thorough')) for _ in range(n)]
+    hist_cases += [gen_hist(rng) for _ in range(ctx.n(1500, 25000))]
     clear_caches()
+    rec = Recorder()
+
+    def flag(case, got, what, plain):
+        """a call in the stream that looks wrong: if a cold call gives something else it is a matter of history — report
+        a reproducing history; otherwise the plain violation (None: nothing to add)"""
+        w = rec.suspicious(case, got)
+        if w is None:
+            return plain
+        if w is False:
+            return None
+        return w
     # --- first evaluation: every case cold-ish, then warm (same case again at once) ------------------
     first, extras = [], []
     hist_viol = []
     for i, case in enumerate(cases):
         if i % 7 == 0:
             clear_caches()                      # really cold for these
+            rec.cleared()
         got, extra = impl(case)
+        rec.ran(case)
         again, _ = impl(case)                   # warm
         if again != got:
-            hist_viol.append({'case': case, 'impl': {'cold': got, 'warm': again}, 'expected': 'same outcome',
-                              'detail': 'outcome differs between the first (cold) and the second (warm) evaluation'})
+            w = flag(case, again, 'warm', {'case': case, 'impl': {'cold': got, 'warm': again}, 'expected': 'same outcome',
+                                           'detail': 'outcome differs between the first (cold) and the second (warm) evaluation'})
+            if w:
+                hist_viol.append(w)
+        else:
+            exp0, info0 = expected(case, extra)
+            if exp0 is not None and got != exp0 and not classify(case, extra, got, exp0, info0):
+                w = flag(case, got, 'first', None)       # a plain violation is reported by the third evaluation below
+                if w:
+                    hist_viol.append(w)
         first.append(got); extras.append(extra)
     # --- model ------------------------------------------------------------------------------------------
     replies = [None] * len(cases)
@@ -846,15 +1204,23 @@ def run(ctx):
     seen, nontriv = set(), set()
     dist = {'mode': {}, 'outcome': {}, 'stop': {}, 'vroot': {}, 'features': {}, 'tree_depth': {}, 'segments': {},
             'matchdict': {}, 'model_outside': 0, 'oracle_skipped': 0, 'spec_vs_model_equal': 0, 'spec_vs_model_differ': 0}
+    rec.cleared()
     for case, got0, extra, mo in zip(cases, first, extras, replies):
         got, extra2, m, v, info = check_case(case, mo)          # third evaluation (warm, later)
+        rec.ran(case)
         if got != got0:
-            viol.append({'case': case, 'impl': {'first': got0, 'later': got}, 'expected': 'same outcome',
-                         'detail': 'outcome changed when the case was evaluated again later'})
+            w = flag(case, got, 'later', {'case': case, 'impl': {'first': got0, 'later': got}, 'expected': 'same outcome',
+                                          'detail': 'outcome changed when the case was evaluated again later'})
+            if w:
+                viol.append(w)
+            if w is not None and w is not False and w.get('history'):
+                v = None                        # the same deviation, already reported with its history
         if m:
             mism.append(m)
         elif mo is not None:
             agree += 1
+        if v and not v.get('finding'):
+            v = flag(case, got, 'oracle', v)
         if v:
             viol.append(v)
         if info.get('model_outside'):
@@ -900,9 +1266,12 @@ def run(ctx):
     rng.shuffle(order)
     for i in order:
         got, _ = impl(cases[i])
+        rec.ran(cases[i])
         if got != first[i]:
-            viol.append({'case': cases[i], 'impl': {'first': first[i], 'after_history': got}, 'expected': 'same outcome',
-                         'detail': 'outcome depends on the paths resolved earlier (memoised helpers)'})
+            w = flag(cases[i], got, 'shuffled', {'case': cases[i], 'impl': {'first': first[i], 'after_history': got}, 'expected': 'same outcome',
+                                                  'detail': 'outcome depends on the paths resolved earlier (memoised helpers)'})
+            if w:
+                viol.append(w)
     dist['history'] = {'evaluations_per_case': 4, 'cache_clears': (len(cases) + 6) // 7,
                        'cache_sizes_at_end': {f: getattr(T, f).cache_info().currsize for f in ('traversal_path_info', 'split_path_info', '_join_path_tuple')
                                               if hasattr(getattr(T, f), 'cache_info')},
@@ -911,12 +1280,16 @@ def run(ctx):
     ex = exhaustive_cases(3 if ctx.tier == 'quick' else 4)
     ex_replies = ctx.run_model([model_case(c, {}) for c in ex]) if ctx.driver_path else [None] * len(ex)
     ex_known = {}
+    rec.cleared()
     for case, mo in zip(ex, ex_replies):
         got, extra, m, v, info = check_case(case, mo)
+        rec.ran(case)
         if m:
             mism.append(m)
         elif mo is not None:
             agree += 1
+        if v and not v.get('finding'):
+            v = flag(case, got, 'exhaustive', v)
         if v:
             if v.get('finding'):
                 bump(ex_known, v['finding'])
@@ -928,6 +1301,47 @@ def run(ctx):
                                         '{a,b,.,..,@@a,""} x vroot in {none,/,/a,/a/b,/zz,/a/}; plus the same segment sequences '
                                         'without leading slash as a match-dictionary traverse string x vroot in {/a,/a/b}'
                                         % (3 if ctx.tier == 'quick' else 4)}
+    # --- histories: the confusable-twins family and the small scope --------------------------------------------
+    flat = [op for H in hist_cases for op in hist_ops(H)]
+    flat_replies = [None] * len(flat)
+    if ctx.driver_path and flat:
+        # route-mode calls need the observed match dictionary: take it from a cold call
+        flat_replies = ctx.run_model([model_case(op, cold_call(op)[1] if op['mode'] in ('router', 'route') else {}) for op in flat])
+    hdist = {'histories': len(hist_cases), 'calls': len(flat), 'call_kinds': {}, 'history_violations': 0}
+    pos = 0
+    for H in hist_cases:
+        k = len(H['ops'])
+        r = eval_hist(H, flat_replies[pos:pos + k])
+        pos += k
+        for op in H['ops']:
+            bump(hdist['call_kinds'], op['mode'] + ('+md' if op.get('md') else '') + ('+vroot' if op.get('vroot') else ''))
+        mism += r['mismatches']
+        if not r['mismatches']:
+            agree += k
+        for v in r['violations']:
+            if v.get('history'):
+                hdist['history_violations'] += 1
+                if hdist['history_violations'] > 3:
+                    continue
+            elif v.get('finding'):
+                bump(ex_known, v['finding'])
+                if ex_known[v['finding']] > 1:
+                    continue
+            viol.append(v)
+    sv, sn, atoms = small_scope_histories(3 if ctx.tier == 'quick' else 4)
+    viol += sv
+    if ctx.driver_path:
+        for a_, mo in zip(atoms, ctx.run_model([model_case(a_, {}) for a_ in atoms])):
+            clear_caches()
+            got_a, _, m_a, v_a, _ = check_case(a_, mo)
+            if m_a:
+                mism.append(m_a)
+            if v_a:
+                viol.append(v_a)
+    hdist['small_scope'] = {'sequences': sn, 'what': 'all sequences of <= %d calls of {traversal_path_info, split_path_info, traverser(PATH_INFO)} '
+                                                     'over 6 strings incl. the twins, each from a fresh state' % (3 if ctx.tier == 'quick' else 4)}
+    hdist['stream'] = {'history_dependent_calls': rec.dependent, 'histories_captured': len(rec.captured)}
+    dist['histories'] = hdist
     # --- witnesses of the recorded finding and of the repaired ones, replayed on the real code ---------------------
     notes = []
     for w, want in WITNESSES:
@@ -939,17 +1353,20 @@ def run(ctx):
             viol.append(v)
         elif want is not None:
             notes.append('recorded finding %s is no longer reproduced by its witness (repaired? update known/C02.json)' % want)
-    viol = shrink_all(viol)
+    viol = confirm(shrink_all(viol), dist, cases)
+    for v in viol:
+        v.pop('_origin', None)
     dist['known_finding_cases'] = {}
     for v in viol:
         if v.get('finding'):
             bump(dist['known_finding_cases'], v['finding'])
-    return {'evaluations': len(cases) * 4 + len(ex), 'exhaustive': True, 'distinct_nontrivial': len(nontriv), 'rule': RULE, 'agreeing': agree,
+    return {'evaluations': len(cases) * 4 + len(ex) + 2 * len(flat) + sn, 'exhaustive': True, 'distinct_nontrivial': len(nontriv), 'rule': RULE, 'agreeing': agree,
             'samples': cases[len(corpus):len(corpus) + 4] + cases[-2:], 'mismatches': mism[:50], 'violations': viol,
             'distribution': dist, 'notes': notes,
             'assumptions': ['resource names and path text are Python str without lone surrogates',
                             'children are found by dict lookup (==/hash of str); the model uses list lookup by equality',
-                            'each case is evaluated four times (cold/warm/later/after the whole shuffled stream) and must not change'],
+                            'each case is evaluated four times (cold/warm/later/after the whole shuffled stream) and must not change',
+                            'fresh-process semantics are produced by emptying every memo of pyramid.traversal (cache_clear() functions, *cache*/*memo* containers)'],
             'trusted_base': ['Python codecs (utf-8, latin-1, ascii), str.split/strip, urllib.parse.unquote_to_bytes/quote, '
                              'WebOb Request (path_info, blank), route matching (the match dictionary is taken as observed) — tied only by this run',
                              'core Lean UTF-8 codec (List.utf8Encode / ByteArray.utf8Decode?) stands for Python\'s strict utf-8 codec']}
@@ -959,24 +1376,121 @@ def depth(t):
     return 1 + max([depth(s) for _, s in t['k']], default=0)
 
 
+def reproduces_fresh(v):
+    """does the reported input fail again when started from fresh_state() — i.e. would it in a new process?"""
+    c = v.get('case')
+    try:
+        if isinstance(c, dict) and c.get('mode') == 'hist':
+            return bool(eval_hist(c, oracle=False, reset=fresh_state)['violations'])
+        fresh_state()
+        _, _, _, w, _ = check_case(c)
+        return bool(w) and not w.get('finding')
+    except Exception:      # noqa
+        return False
+
+
+def capture_from_stream(bad, stream, window=2000):
+    """last resort for a memo that clear_caches() cannot reach (closure, default argument, …): the calls that preceded
+    the misbehaving one in the first pass of the stream are replayed from fresh_state() and cut down"""
+    where = {id(c): i for i, c in enumerate(stream)}
+    for v in bad:
+        i = where.get(id(v.get('_origin', v.get('case'))))
+        if i is None:
+            continue
+        ops = stream[max(0, i - window):i + 1]
+        try:
+            if not last_differs(ops, fresh_state):
+                continue
+            ops = minimise_history(ops, budget=80, reset=fresh_state)
+            r = eval_hist({'mode': 'hist', 'ops': ops}, oracle=False, reset=fresh_state)
+        except Exception:      # noqa
+            continue
+        if r['violations']:
+            return r['violations'][0]
+    return None
+
+
+def confirm(viol, dist, stream=(), limit=12):
+    """every reported failing input must fail from a fresh state.  Unknown violations are re-run after fresh_state():
+    the complete histories first, then the bare cases smallest first (at most `limit`).  Those that do not fail again
+    alone (their outcome was a matter of what ran before them) are dropped as soon as something is confirmed — and so
+    are unchecked ones smaller than the smallest confirmed input, so that the input the runner writes to the replay
+    file is one that reproduces.  If nothing can be confirmed, a history is cut out of the stream from fresh_state();
+    failing that everything stays (the run still fails) and says so."""
+    unknown = [v for v in viol if not v.get('finding')]
+    if not unknown:
+        return viol
+
+    def size(v):
+        return len(json.dumps(v.get('case'), default=str))
+    unknown.sort(key=size)
+    good, bad, seen = [], [], set()
+    for v in [v for v in unknown if v.get('history') is True][:4]:
+        seen.add(id(v))
+        (good if reproduces_fresh(v) else bad).append(v)
+    k = 0
+    for v in unknown:
+        if id(v) in seen:
+            continue
+        if k >= limit or (good and size(v) > min(map(size, good))):
+            break
+        k += 1
+        seen.add(id(v))
+        (good if reproduces_fresh(v) else bad).append(v)
+    fresh_state()
+    st = dist['confirmed_from_fresh_state'] = {'confirmed': len(good), 'not_reproducing_alone': len(bad)}
+    if not good and bad:
+        w = capture_from_stream(bad[:3], list(stream))
+        fresh_state()
+        if w:
+            good.append(w)
+            viol = viol + [w]
+            st['captured_from_stream'] = 1
+    if not good:
+        for v in bad:
+            v['detail'] = (v.get('detail') or '') + ' [NOT reproduced from a fresh state by this input alone: it depends on calls made earlier in the run]'
+        return viol
+    m = min(map(size, good))
+    keep = {id(v) for v in good}
+    out = [v for v in viol if v.get('finding') or id(v) in keep or (id(v) not in seen and size(v) > m)]
+    st['dropped'] = len(viol) - len(out)
+    return out
+
+
 def shrink_all(viol, limit=6):
     """shrink unknown violations (known-finding ones are kept as they are: one example is enough)"""
-    out, done = [], 0
+    out, done, hdone = [], 0, 0
     for v in viol:
-        if v.get('finding') or done >= limit or 'first' in (v.get('impl') or {}) or 'cold' in (v.get('impl') or {}):
+        if v.get('history') is True and hdone < 2:
+            hdone += 1
+
+            def hstill(c):
+                try:
+                    return c.get('mode') == 'hist' and bool(c.get('ops')) and bool(eval_hist(c, oracle=False)['violations'])
+                except Exception:
+                    return False
+            small = vfutil.shrink(v['case'], hstill, max_steps=500)
+            r = eval_hist(small, oracle=False)
+            out.append(r['violations'][0] if r['violations'] else v)
+            continue
+        if v.get('finding') or v.get('history') or done >= limit or 'first' in (v.get('impl') or {}) or 'cold' in (v.get('impl') or {}):
             out.append(v)
             continue
         done += 1
 
         def still(c):
             try:
+                clear_caches()
                 _, _, _, w, _ = check_case(c)
             except Exception:
                 return False
             return bool(w) and not w.get('finding')
-        small = vfutil.shrink(v['case'], still, max_steps=600)
+        small = vfutil.shrink(v['case'], still, max_steps=600) if still(v['case']) else v['case']
+        clear_caches()
         _, _, _, w, _ = check_case(small)
-        out.append(w or v)
+        w = w or v
+        w['_origin'] = v['case']
+        out.append(w)
     return out
 
 
@@ -1037,9 +1551,12 @@ def search(ctx):
             _, _, _, v, _ = check_case({'mode': mode, 'path': p})
             if v:
                 viol.append(v)
+    sv, sn, _ = small_scope_histories(4)
+    viol += sv
+    n += sn
     k = 0
     while not viol and k < 40000 and ctx.time_left() > 45:
-        case = gen_case(ctx.rng, deep=True)
+        case = gen_case(ctx.rng, deep=True) if k % 4 else gen_hist(ctx.rng)
         k += 1
         _, _, _, v, _ = check_case(case)
         if v and not v.get('finding'):
@@ -1051,6 +1568,17 @@ def replay(ctx, rep):
     case = rep.get('case')
     if case is None:
         return {'violates': False, 'note': 'replay names broken obligations only', 'broken': rep.get('broken_obligations')}
+    if case.get('mode') == 'hist':
+        ops = hist_ops(case)
+        replies = None
+        if ctx.driver_path and ops:
+            replies = ctx.run_model([model_case(op, cold_call(op)[1] if op['mode'] in ('router', 'route') else {}) for op in ops])
+        r = eval_hist(case, replies, reset=fresh_state)
+        unknown = [v for v in r['violations'] if not v.get('finding')]
+        return {'case': case, 'calls': [op_brief(op) for op in ops], 'in_this_history': r['seq'], 'in_a_fresh_process': r['cold'],
+                'model': None if replies is None else [decode_model(op, mo)[0] for op, mo in zip(ops, replies)],
+                'mismatch': (r['mismatches'] or [None])[0], 'violations': unknown[:3],
+                'detail': (unknown or [{}])[0].get('detail'), 'violates': bool(unknown)}
     got, extra = impl(case)
     mo = None
     if ctx.driver_path:
